@@ -292,7 +292,12 @@ func drawUntargeted(t *rapid.T) untargetedCase {
 	for i, k := 0, rapid.IntRange(1, 5).Draw(t, "edits"); i < k; i++ {
 		c.Edits = append(c.Edits, edit(t, mut, h))
 	}
-	c.Mutant = schema.Marshal([]*fdp{mut})[0]
+	// an edit may leave a required field of descriptor.proto unset (UninterpretedOption.NamePart)
+	b, err := proto.MarshalOptions{Deterministic: true, AllowPartial: true}.Marshal(mut)
+	if err != nil {
+		t.Fatalf("harness: %v", err)
+	}
+	c.Mutant = append([]byte{}, b...)
 	c.Text = oneLine(mut)
 	return c
 }
@@ -352,7 +357,7 @@ func checkUntargeted(c untargetedCase) error {
 		return fmt.Errorf("harness: %v", err)
 	}
 	mut := &fdp{}
-	if err := proto.Unmarshal(c.Mutant, mut); err != nil {
+	if err := (proto.UnmarshalOptions{AllowPartial: true}).Unmarshal(c.Mutant, mut); err != nil {
 		return fmt.Errorf("harness: %v", err)
 	}
 	if hitsTestdataHook(mut) && pbt.ExcludeKnown(kfTestdataHook) {
